@@ -105,7 +105,11 @@ class SQueue:
         self.items = collections.deque()
         self.unfinished = 0
 
-    def put(self, x):              # only the caller, before any worker exists
+    def put(self, x):
+        # as the code stands only the caller puts, before any worker exists: not a scheduling point then. A put that happens
+        # while workers are running is one (it races with their get_nowait())
+        if self.s.me() == 0 and len(self.s.actors) > 1:
+            self.s.park("putQ")
         self.items.append(x)
         self.unfinished += 1
 
